@@ -357,6 +357,13 @@ class _Cur:
 CUR = _Cur()
 
 
+def CUR_RAND_LOG() -> List[Any]:
+    return list(_LAST_RAND_LOG)
+
+
+_LAST_RAND_LOG: List[Any] = []
+
+
 def _now() -> Any:
     assert CUR.loop is not None
     return CUR.loop.now_ms
@@ -365,6 +372,7 @@ def _now() -> Any:
 def _randint(lo: int, hi: int) -> Any:
     v = CUR.ctx.rand(lo, hi)
     CUR.rand_log.append((lo, hi, v))
+    _LAST_RAND_LOG.append((lo, hi, v))
     return v
 
 
@@ -446,6 +454,7 @@ def begin(ctx: Any, start_ms: Any) -> FakeLoop:
     CUR.loop = loop
     CUR.ctx = ctx
     CUR.rand_log = []
+    del _LAST_RAND_LOG[:]
     asyncio._set_running_loop(loop)  # type: ignore[attr-defined]
     # lru_caches in the library key on concrete strings only; nothing to reset.
     return loop
